@@ -18,6 +18,7 @@ import copy
 import io
 import itertools
 import json
+import os
 import re
 
 THEOREMS = [
@@ -123,6 +124,8 @@ def check_replace(ctx, texts, name, value, ok, model=None):
         if removal:
             if ref in out:
                 ctx.violation("na-reference-disappears", case, {"out": out})
+            elif wt and out and not out.strip():
+                ctx.violation("na-result-not-a-blank-item", case, {"out": out})
             elif wt and not ok(out):
                 sig = SIG_ADJ if adj.search(t) else None
                 ctx.count("not-wellformed:" + (sig or "other"))
@@ -378,7 +381,7 @@ def impl_pair(spec, header, rows, via_file, tmpdir):
     sidecar = Sidecar(io.StringIO(json.dumps(sc_json)))
     df = pd.DataFrame(rows, columns=header, dtype=str)
     if via_file:
-        path = tmpdir + "/events.tsv"
+        path = f"{tmpdir}/events_{os.getpid()}.tsv"
         df.replace("", "n/a").to_csv(path, sep="\t", index=False)
         ti = TabularInput(path, sidecar=sidecar, name="gen")
     else:
@@ -425,7 +428,8 @@ def judge_pair(ctx, ok, case, spec, impl, model):
     if model["series"] != impl["series"][0]:
         ctx.disagree("Assemble.series = list(series_a)", case, model["series"], impl["series"][0])
     if model["series"] != model["series_rev"]:
-        ctx.count("model-ref-order-sensitive")
+        ctx.count("ref-order-changes-blanks-only")      # a spliced text ending in a blank next to a removed reference
+    if [norm(x) for x in model["series"]] != [norm(x) for x in model["series_rev"]]:
         ctx.violation("same-answer-for-any-iteration-order-of-the-reference-set", case,
                       {"order": impl["refs"], "series": model["series"], "reversed": model["series_rev"]})
     # ---- oracle
@@ -462,29 +466,43 @@ def judge_pair(ctx, ok, case, spec, impl, model):
             ctx.violation("row-delimiter-wellformed", {**case, "row": i}, {"got": got}, signature=sig)
 
 
-# batch the model calls of part (b): one driver process per chunk instead of one per pair
+def _impl_worker(args):
+    spec, header, rows, via_file, tmpdir = args
+    try:
+        return impl_pair(spec, header, rows, via_file, tmpdir)
+    except Exception as e:     # reported as a violation by the parent
+        return {"raised": f"{type(e).__name__}: {e}"}
+
+
 def part_b_batched(ctx, ok):
+    """implementation side in chunks (forked workers in the thorough tier), one driver process per chunk"""
+    import multiprocessing
     import shutil
     import tempfile
     tmpdir = tempfile.mkdtemp(prefix="hedverif_c06_")
+    pool = None if ctx.quick() else multiprocessing.get_context("fork").Pool(4)
     try:
         n = 2500 if ctx.quick() else 42000
         pairs = FIXED_PAIRS() + [gen_pair(ctx.rng) for _ in range(n)]
         for lo in range(0, len(pairs), 1000):
+            chunk = [(spec, header, rows, i % 7 == 3, tmpdir) for i, (spec, header, rows)
+                     in enumerate(pairs[lo:lo + 1000], lo)]
+            impls = pool.map(_impl_worker, chunk, chunksize=25) if pool else [_impl_worker(a) for a in chunk]
             todo = []
-            for i, (spec, header, rows) in enumerate(pairs[lo:lo + 1000], lo):
-                case = make_case(spec, header, rows, i % 7 == 3)
-                try:
-                    impl = impl_pair(spec, header, rows, i % 7 == 3, tmpdir)
-                except Exception as e:
-                    ctx.violation("assembly-raised", case, f"{type(e).__name__}: {e}")
-                    continue
-                todo.append((case, spec, impl))
+            for (spec, header, rows, via_file, _), impl in zip(chunk, impls):
+                case = make_case(spec, header, rows, via_file)
+                if "raised" in impl:
+                    ctx.violation("assembly-raised", case, impl["raised"])
+                else:
+                    todo.append((case, spec, impl))
             ans = ctx.model.batch([model_request(spec, impl) for _, spec, impl in todo])
             for (case, spec, impl), m in zip(todo, ans):
                 judge_pair(ctx, ok, case, spec, impl, m)
             ctx.check_time()
+        ctx.extra["sidecar_table_pairs"] = len(pairs)
     finally:
+        if pool:
+            pool.terminate()
         shutil.rmtree(tmpdir, ignore_errors=True)
 
 
